@@ -6,7 +6,8 @@ from common import *
 
 PRELUDE_T = "From MV Require Import Vec Cplx Mat Hop Hopper Propagate Traj Cumulative Afssh R02 RTraj.\n"
 SETUPS = [("simple", [-2.0], (6.0, 14.0)), ("dual", [-3.0], (12.0, 30.0)), ("extended", [-3.0], (4.0, 12.0)), ("super", [-3.0], (5.0, 12.0)),
-          ("modelx", [-8.5], (8.0, 14.0)), ("vibronic", [0.1, -0.2, 0.15, 0.05, 0.3], None), ("modelw", [-0.6], (15.0, 30.0))]
+          ("modelx", [-8.5], (8.0, 14.0)), ("vibronic", [0.1, -0.2, 0.15, 0.05, 0.3], None), ("modelw", [-0.6], (15.0, 30.0)),
+          ("subotnik2d", [-3.0, 0.4], "2d")]     # two nuclear dimensions with frequent hops: the coupling direction at the hop point matters
 
 
 def elec_lit(e, n, nd):
@@ -17,17 +18,21 @@ def elec_lit(e, n, nd):
 def collect(res, rng, nruns, max_cases, kind="sh", integ="exp"):
     """kind: 'sh' TrajectorySH -> caseT; 'eh' Ehrenfest -> caseE; 'cum' TrajectoryCum -> caseC.
     integ 'rk4' (kind 'sh' only): electronic_integration='linear-rk4', the eigh answer recorded is that of the previous Hamiltonian (caseT for chkTr)"""
-    import mudslide, copy
+    import mudslide, copy, sys
     from mudslide.models import scattering_models as M
     cases, meta = [], []
     for it in range(nruns):
         mname, x0, kr = SETUPS[it % len(SETUPS)]
-        model = M[mname](); n = model.nstates(); nd = model.ndim()
-        p0 = [rng.uniform(*kr)] if kr else [0.5, -0.3, 0.2, 0.1, 1.0]
+        model = sys.modules['mudslide.models.scattering_models'].Subotnik2D(mass=[2000.0, 700.0]) if mname == "subotnik2d" else M[mname]()
+        n = model.nstates(); nd = model.ndim()
+        p0 = [rng.uniform(10.0, 40.0), rng.uniform(-9.0, 9.0)] if kr == "2d" else [rng.uniform(*kr)] if kr else [0.5, -0.3, 0.2, 0.1, 1.0]
+        if kr == "2d": x0 = [rng.uniform(-3.0, -1.5), rng.uniform(-1.0, 2.0)]
         pois = rng.random() < 0.4
-        dt = rng.choice([5.0, 10.0, 20.0]) if nd == 1 else 2.0
+        dt = rng.choice([5.0, 10.0, 20.0]) if nd == 1 else 12.0 if kr == "2d" else 2.0
         nsteps = rng.randint(25, 60)
         zl = [rng.choice([2.0, 2.0, rng.random() * 0.05, 10 ** rng.uniform(-6, -2), rng.random()]) for _ in range(nsteps + 5)]
+        if kr == "2d":
+            zl = [rng.choice([1e-9, 1e-9, 2.0]) for _ in range(nsteps + 5)]      # an attempt in most passes
         if kind == "cum":
             pois = False
             zl = [rng.choice([rng.random() * 0.02, rng.random() * 0.002, rng.random() * 0.3]) for _ in range(rng.choice([1, 30, 30]))]
